@@ -76,7 +76,8 @@ func renderParts(variant uint64, items []sortItem) (defs, lines []string) {
 		m := ""
 		switch {
 		case it.nsets == 0:
-			if rng.Chance(1, 3) && it.dir != "php_fastcgi" {
+			if (rng.Chance(1, 3) && it.dir != "php_fastcgi") || it.dir == "push" {
+				// (`push /res` alone would read the resource as a path matcher)
 				m = "*"
 			}
 		case len(it.paths) == 1:
